@@ -4,9 +4,13 @@ Property theorems only; helper lemmas live in Lemmas/Transpile*.lean.
 -/
 import NetqasmVerif.Lemmas.TranspileSim
 import NetqasmVerif.Lemmas.TranspileExpandSound
+import NetqasmVerif.Lemmas.TranspileScratch
 import NetqasmVerif.Gen.NvExpand
 namespace NQ.C08
 open NQ NQ.Tr
+
+def qreg (i : Int) : Operand := .reg ⟨2, i⟩
+def rreg (i : Int) : Operand := .reg ⟨0, i⟩
 
 /-! ## Facts about the generated tables (re-decided by the kernel whenever /repo changes them) -/
 
@@ -154,27 +158,80 @@ Parameters: `M` an abstract instruction semantics with `SemLocal` (C04's obligat
 memory (quantum state included, up to global phase) as the gate and changes no register except
 the one `get_unused_register` returns. -/
 
-/-- **scratch_ok**: on a `QStatic` program the register borrowed for the electron at a gate at
-position `p` (whatever `get_unused_register` returns there) is not inside any window at `p + 1`,
-i.e. no execution reads it before a later `set` re-defines it — it is not live. -/
-theorem scratch_ok (cfg : Cfg) (S : List Instr) (p : Nat) (x : Instr) (hx : S[p]? = some x)
-    (s0 : Reg) (hs : getUnused ((S.take (p + 1)).flatMap topRegs) = .ok s0) :
-    K cfg S (p + 1) s0 = none ∧ K cfg S p s0 = none ∧ s0 ∉ topRegs x ∧ s0.bank = bankQ := by
-  have hf := getUnused_fresh hs
-  refine ⟨?_, ?_, ?_, hf.2⟩
-  · cases hk : K cfg S (p + 1) s0 with
+/-- table facts for `scratch_ok`: templates contain `set` only in the carbon–carbon rows and only
+as `set s <literal>` (both debug and hardware settings) -/
+theorem sets_only_scratch_gen : ∀ d h : Bool, SetsOnlyScratch (Gen.cfg d h) = true := by decide +kernel
+
+/-- **scratch_ok** — about the pass's OUTPUT: in the chunk emitted for a gate at position `p`, every
+register written (every `set r v` of the expansion; expansions contain no other register write) is
+the register `get_unused_register` returns for the registers named up to and including `p`; hence it
+is a Q register named by no instruction at or before `p`, and it lies in no window at `p` or `p + 1`
+(no execution reads it before a later `set` re-defines it): it is not live.
+(A pass that cached the register of an earlier gate — seeded change C08_0 — violates the first
+conjunct: its second carbon–carbon gate writes a register the program started using in between.) -/
+theorem scratch_ok (cfg : Cfg) (hS : SetsOnlyScratch cfg = true) (S out : List Instr)
+    (h : transpile cfg S = .ok out) :
+    ∃ cs, Chunks cfg [] [] S cs ∧
+      ∀ p x c, S[p]? = some x → isGate cfg x = true → cs[p]? = some c →
+        ∀ y ∈ c, ∀ r v, setOf cfg y = some (r, v) →
+          getUnused ((S.take (p + 1)).flatMap topRegs) = .ok r ∧
+          r ∉ (S.take (p + 1)).flatMap topRegs ∧ r.bank = bankQ ∧
+          K cfg S p r = none ∧ K cfg S (p + 1) r = none := by
+  obtain ⟨cs, hc, _, _, _⟩ := transpile_structure h
+  refine ⟨cs, hc, ?_⟩
+  intro p x c hx hg hcp y hy r v hset
+  obtain ⟨hp, hxe⟩ := List.getElem?_eq_some_iff.1 hx
+  obtain ⟨info, hi, hp', hex⟩ := hc.at p hp
+  rw [hxe] at hi hex
+  have hce : cs[p] = c := by
+    rw [List.getElem?_eq_getElem hp'] at hcp; simpa using hcp
+  rw [hce] at hex
+  have hgi : infoGate info = true := by rw [← isGate_eq hi]; exact hg
+  have hgu := expandInstr_sets hS hi hgi hex hy hset
+  simp only [List.nil_append] at hgu
+  have hf := getUnused_fresh hgu
+  refine ⟨hgu, hf.1, hf.2, ?_, ?_⟩
+  · cases hk : K cfg S p r with
     | none => rfl
-    | some v => exact absurd (K_mem_used hk) hf.1
-  · cases hk : K cfg S p s0 with
-    | none => rfl
-    | some v =>
+    | some v' =>
       have := K_mem_used hk
       refine absurd ?_ hf.1
       rw [take_succ_of_get hx]; simp only [List.flatMap_append, List.mem_append]; exact Or.inl this
-  · intro hm
-    apply hf.1
-    rw [take_succ_of_get hx]; simp only [List.flatMap_append, List.mem_append]
-    exact Or.inr (by simpa using hm)
+  · cases hk : K cfg S (p + 1) r with
+    | none => rfl
+    | some v' => exact absurd (K_mem_used hk) hf.1
+
+/-- the program of seeded change C08_0 (`cnot` on carbons 1, 2; then `Q2` starts being used for
+qubit 3; a second carbon–carbon gate; `x Q2` without re-setting): the pass as it is borrows `Q2` for
+the first gate and `Q3` for the second, so `Q2` still names qubit 3 at the end -/
+def seededScratch : List Instr := [
+  ⟨"core.SetInstruction", [qreg 0, .imm 1]⟩,
+  ⟨"core.SetInstruction", [qreg 1, .imm 2]⟩,
+  ⟨"vanilla.CnotInstruction", [qreg 0, qreg 1]⟩,
+  ⟨"core.SetInstruction", [qreg 2, .imm 3]⟩,
+  ⟨"vanilla.GateHInstruction", [qreg 2]⟩,
+  ⟨"vanilla.CphaseInstruction", [qreg 1, qreg 0]⟩,
+  ⟨"vanilla.GateXInstruction", [qreg 2]⟩]
+
+theorem seeded_scratch_registers :
+    QStatic (Gen.cfg false false) seededScratch = true ∧
+    (transpile (Gen.cfg false false) seededScratch).toOption.map (fun o =>
+      o.filterMap (fun i => match setOf (Gen.cfg false false) i with
+        | some (r, v) => if r.bank == bankQ then some (r.idx, v) else none
+        | none => none)) = some [(0, 1), (1, 2), (2, 0), (2, 3), (3, 0)] := by
+  decide +kernel
+
+/-- why `scratch_ok` excludes the seeded change: the register borrowed at the first gate (`Q2`,
+position 2) is, at the second carbon–carbon gate (position 5), named by the program and inside a
+window (`K … 6 Q2 = some 3`: it is live, holding qubit 3); `get_unused_register` there returns `Q3`.
+A model that re-used the cached `Q2` would write a register for which the conjuncts
+`r ∉ …flatMap topRegs` and `K cfg S (p + 1) r = none` of `scratch_ok` are false. -/
+theorem seeded_cache_violates_scratch_ok :
+    getUnused ((seededScratch.take 3).flatMap topRegs) = .ok ⟨2, 2⟩ ∧
+    getUnused ((seededScratch.take 6).flatMap topRegs) = .ok ⟨2, 3⟩ ∧
+    (⟨2, 2⟩ : Reg) ∈ (seededScratch.take 6).flatMap topRegs ∧
+    K (Gen.cfg false false) seededScratch 6 ⟨2, 2⟩ = some 3 := by
+  decide +kernel
 
 /-- **transpile_simulates (partial: under `QStatic`)**. Every finite execution of the vanilla
 subroutine from `s0` to `(pc, s)` is matched by an execution of the serialised NV subroutine from
@@ -348,8 +405,6 @@ example (d h : Bool) : ∃ M : Sem Unit, SemLocal M (Gen.cfg d h) ∧ ExpandSoun
 
 /-! ## Witnesses of the findings, in the model -/
 
-def qreg (i : Int) : Operand := .reg ⟨2, i⟩
-def rreg (i : Int) : Operand := .reg ⟨0, i⟩
 
 /-- F10, first witness: `load Q0 @0[R0]; set Q1 2; cnot Q0 Q1` -/
 def f10a : List Instr := [
